@@ -1515,3 +1515,33 @@ func performsDirectly(p *core.Program, fn *ssa.Function, e *core.Effect, kind, n
 	}
 	return false
 }
+
+// guardedHereOrAtCallSites: every path to instruction at in fn passes the guard, or — when the guarded computation
+// was moved into a helper — every call site of fn (in custom code) is itself reached only behind the guard.
+func guardedHereOrAtCallSites(p *core.Program, fn *ssa.Function, at ssa.Instruction, g core.GuardMatch) bool {
+	if len(p.FindUnguarded(fn, []*core.Effect{{Instr: at}}, g, true)) == 0 {
+		return true
+	}
+	n := 0
+	for _, caller := range p.CG().In[fn] {
+		ok := true
+		allInstrs(caller, func(in ssa.Instruction) {
+			cs, isCall := in.(ssa.CallInstruction)
+			if !isCall {
+				return
+			}
+			for _, cal := range p.Callees(cs) {
+				if cal == fn {
+					n++
+					if len(p.FindUnguarded(caller, []*core.Effect{{Instr: cs}}, g, true)) != 0 {
+						ok = false
+					}
+				}
+			}
+		})
+		if !ok {
+			return false
+		}
+	}
+	return n > 0
+}
